@@ -253,6 +253,39 @@ var flagKinds = []flagKind{
 		}},
 }
 
+// c19KcReuse: the key-credential flags decoded into ONE long-lived object (as when an application walks a list of
+// msDS-KeyCredentialLink values with one CustomKeyInformation): the names must be those a fresh object reports, and the name
+// lists handed out for earlier words are values of their own -- a later decode must not change them.
+var (
+	c19ReusedKF key.CustomKeyInformationFlags
+	c19KeptKF   []struct {
+		live, copy []string
+		word       uint32
+	}
+)
+
+func c19KcReuse(c *h.Ctx, w uint32, fresh []string, sample interface{}) {
+	c19ReusedKF.FromBytes(byte(w))
+	c.Exec(1)
+	site := "key.CustomKeyInformationFlags.FromBytes"
+	if strings.Join(c19ReusedKF.Name, "|") != strings.Join(fresh, "|") {
+		c.Fail(site, "reused-object", fmt.Sprintf("word %#x decoded into an object that held another word: %q, into a fresh object: %q", w, c19ReusedKF.Name, fresh), sample)
+	}
+	for _, k := range c19KeptKF {
+		if strings.Join(k.live, "|") != strings.Join(k.copy, "|") {
+			c.Fail(site, "result-changed-by-later-decode", fmt.Sprintf("the names handed out for word %#x were %q and read %q after word %#x was decoded into the same object", k.word, k.copy, k.live, w), sample)
+			break
+		}
+	}
+	c19KeptKF = append(c19KeptKF, struct {
+		live, copy []string
+		word       uint32
+	}{c19ReusedKF.Name, append([]string(nil), c19ReusedKF.Name...), w})
+	if len(c19KeptKF) > 4 {
+		c19KeptKF = c19KeptKF[1:]
+	}
+}
+
 func kindByName(k string) *flagKind {
 	for i := range flagKinds {
 		if flagKinds[i].Kind == k {
@@ -464,6 +497,9 @@ func c19Words(cc *h.Ctx) error {
 				site = fk.Site + ".FromBytes"
 			}
 			first, names := fk.Decompose(w)
+			if fk.Kind == "kcflags" {
+				c19KcReuse(c.Ctx, w, names, sample)
+			}
 			for i := 1; i < c19Repeat; i++ {
 				again, _ := fk.Decompose(w)
 				if again != first {
